@@ -1815,10 +1815,27 @@ func (vm *Vm) UnwindExceptHandler(frame *py.Frame, block *py.TryBlock) {
 // Returns an Object and an error.  The error will be a py.ExceptionInfo
 //
 // This is the equivalent of PyEval_EvalFrame
+// recursionGuard is implemented by contexts which limit the depth of
+// nested frame executions
+type recursionGuard interface {
+	EnterRecursiveCall() error
+	LeaveRecursiveCall()
+}
+
 func RunFrame(frame *py.Frame) (res py.Object, err error) {
 	var vm = Vm{
 		frame:   frame,
 		context: frame.Context,
+	}
+
+	// A context may bound the depth of nested frame executions so
+	// that a runaway recursion ends with an exception instead of
+	// overflowing the Go stack
+	if guard, ok := frame.Context.(recursionGuard); ok {
+		if err := guard.EnterRecursiveCall(); err != nil {
+			return nil, err
+		}
+		defer guard.LeaveRecursiveCall()
 	}
 
 	// FIXME need to do this to save the old exeption when we
